@@ -443,7 +443,7 @@ func checkC17(c *Ctx, r *Report) {
 	states := []int64{0, 1, 2, 3, 4, 5, 6}
 	// QoS 1: PUBACK
 	for _, st := range states {
-		cells := map[string]aval{"type:sn": kstr("*packets1.Puback"), "type:tx": kstr("*client.publishQOS1Transaction"), stateCell: kint(st)}
+		cells := map[string]aval{"type:sn": kstr("*packets1.Puback"), "type:tx": kstr(c.clPub1Tx()), stateCell: kint(st)}
 		e := m.clientExplorer()
 		outs := e.Explore(m.snDisp, cells, nil)
 		key := fmt.Sprintf("PUBACK[qos1-transaction,state=%d]", st)
@@ -453,7 +453,7 @@ func checkC17(c *Ctx, r *Report) {
 			handled := len(eventsWithPrefix(o, "store.Get")) > 0
 			if succ != (st == st1) && handled {
 				// the lookup may also miss (ok=false): then nothing happens
-				if succ || o.Cells["type:tx"].s == "*client.publishQOS1Transaction" && st == st1 && !succ && assertedOK(o) {
+				if succ || o.Cells["type:tx"].s == c.clPub1Tx() && st == st1 && !succ && assertedOK(o) {
 					okc = false
 				}
 			}
@@ -477,7 +477,7 @@ func checkC17(c *Ctx, r *Report) {
 	// QoS 2: PUBREC then PUBCOMP
 	var st3 int64 = -1
 	for _, st := range states {
-		cells := map[string]aval{"type:sn": kstr("*packets1.Pubrec"), "type:tx": kstr("*client.publishQOS2Transaction"), stateCell: kint(st)}
+		cells := map[string]aval{"type:sn": kstr("*packets1.Pubrec"), "type:tx": kstr(c.clPub2Tx()), stateCell: kint(st)}
 		e := m.clientExplorer()
 		outs := e.Explore(m.snDisp, cells, nil)
 		key := fmt.Sprintf("PUBREC[qos2-transaction,state=%d]", st)
@@ -507,7 +507,7 @@ func checkC17(c *Ctx, r *Report) {
 		r.cond(okc, "R1", key, c.pos(m.snDisp.Pos()), firstOutcome(outs), fmt.Sprintf("PUBREC must be answered with PUBREL (and the transaction advanced) exactly in state %d: %s", st2, allOutcomes(outs)))
 	}
 	for _, st := range states {
-		cells := map[string]aval{"type:sn": kstr("*packets1.Pubcomp"), "type:tx": kstr("*client.publishQOS2Transaction"), stateCell: kint(st)}
+		cells := map[string]aval{"type:sn": kstr("*packets1.Pubcomp"), "type:tx": kstr(c.clPub2Tx()), stateCell: kint(st)}
 		e := m.clientExplorer()
 		outs := e.Explore(m.snDisp, cells, nil)
 		key := fmt.Sprintf("PUBCOMP[qos2-transaction,state=%d]", st)
@@ -535,7 +535,7 @@ func checkC17(c *Ctx, r *Report) {
 	// R2
 	c.checkRetryCallbacks(r, "R2", "client", m.snSenders)
 	// R3: PUBREL always answered
-	for _, tx := range []string{"none", "*client.brokerPublishQOS2Transaction", "*client.publishQOS1Transaction", "*client.subscribeTransaction"} {
+	for _, tx := range []string{"none", c.clBrokerPub2Tx(), c.clPub1Tx(), c.clSubscribeTx()} {
 		cells := map[string]aval{"type:sn": kstr("*packets1.Pubrel"), "type:tx": kstr(tx)}
 		e := m.clientExplorer()
 		outs := e.Explore(m.snDisp, cells, nil)
@@ -760,7 +760,7 @@ func checkC16(c *Ctx, r *Report) {
 			}
 		}
 	}
-	q1, q2 := "*gateway.brokerPublishQOS1Transaction", "*gateway.brokerPublishQOS2Transaction"
+	q1, q2 := c.gwBrokerPub1Tx(), c.gwBrokerPub2Tx()
 	run("REGACK", m.snDisp, "type:sn", "*packets1.Regack", q1, sReg, "Publish", false)
 	run("PUBACK", m.snDisp, "type:sn", "*packets1.Puback", q1, sPuback, "mq:*mqtt.PubackPacket", true)
 	run("REGACK", m.snDisp, "type:sn", "*packets1.Regack", q2, sReg, "Publish", false)
@@ -800,7 +800,7 @@ func checkC16(c *Ctx, r *Report) {
 		r.undecided("R5", "client-model", "-", err.Error())
 		return
 	}
-	for _, tx := range []string{"none", "*client.brokerPublishQOS2Transaction", "*client.publishQOS1Transaction"} {
+	for _, tx := range []string{"none", c.clBrokerPub2Tx(), c.clPub1Tx()} {
 		e := cm.clientExplorer()
 		outs := e.Explore(cm.snDisp, map[string]aval{"type:sn": kstr("*packets1.Pubrel"), "type:tx": kstr(tx)}, nil)
 		key := "client-PUBREL[stored=" + strings.TrimPrefix(tx, "*client.") + "]"
@@ -953,7 +953,7 @@ func (c *Ctx) functionHasParam(f *ssa.Function, pkgpath, tname string) bool {
 // exchange under the same ID) nothing is stored: the client's exchange must
 // not be evicted.
 func (c *Ctx) checkClientQoS2Receive(r *Report, rule string, cm *gwModel) {
-	for _, tx := range []string{"none", "*client.brokerPublishQOS2Transaction", "*client.publishQOS1Transaction", "*client.publishQOS2Transaction", "*client.subscribeTransaction"} {
+	for _, tx := range []string{"none", c.clBrokerPub2Tx(), c.clPub1Tx(), c.clPub2Tx(), c.clSubscribeTx()} {
 		for _, dup := range []int64{0, 1} {
 			e := cm.clientExplorer()
 			outs := e.Explore(cm.snDisp, map[string]aval{"type:sn": kstr("*packets1.Publish"), "type:tx": kstr(tx), "f:packets1.Publish.QOS": kint(2),
@@ -976,9 +976,9 @@ func (c *Ctx) checkClientQoS2Receive(r *Report, rule string, cm *gwModel) {
 				switch {
 				case tx == "none" && rec && !storeBeforeRec:
 					okc, detail = false, "a QoS 2 PUBLISH under a free message ID is acknowledged with PUBREC although no receive transaction was stored: PUBREL is then answered by the 'already finished' fallback and the subscription's handler never runs (when the first copy was lost this is the only copy the client sees): "+strings.Join(o.Events, " ; ")
-				case tx == "*client.brokerPublishQOS2Transaction" && stored:
+				case tx == c.clBrokerPub2Tx() && stored:
 					okc, detail = false, "a retransmitted QoS 2 PUBLISH creates a second receive transaction: "+strings.Join(o.Events, " ; ")
-				case tx != "none" && tx != "*client.brokerPublishQOS2Transaction" && stored:
+				case tx != "none" && tx != c.clBrokerPub2Tx() && stored:
 					okc, detail = false, "an inbound QoS 2 PUBLISH replaces the transaction of another kind stored under its message ID (the client's own exchange in flight): its acknowledgement is then dropped and the API call fails although the gateway acknowledged in time: "+strings.Join(o.Events, " ; ")
 				}
 			}
